@@ -225,7 +225,8 @@ CLAIMED['C14'] = dict(
          'no assertion fires and the fuel suffices; the core is mkForall_part (the quantifier constructor accepts every part of an accepted '
          'condition that still mentions the variable) and emptyTest_ok; FOR split_and on expressions (Props/C14c): splitAnd_total / splitAnd_total_parsed - '
          'a list of conjuncts or the ValueError class, nothing else (presplit_total by a mutual induction over the three transform functions with a '
-         'node-by-node invariant); FOR canonical_form (Props/C14d): canonical_total - on an accepted property whose split positions bind no alias '
+         'node-by-node invariant); WT + Rebuildable is an invariant of both functions (splitAnd_good, refactorExpr_good), so they compose without '
+         'failing (refactor_after_split); FOR canonical_form (Props/C14d): canonical_total - on an accepted property whose split positions bind no alias '
          'every copy passes the sanity check and the result is a non-empty list, canonical_total_noRef - the same whenever no event references an '
          'alias bound in a split position (the known finding, negated); canonical_ok_iff - canonical_form succeeds exactly when nothing is '
          'split or every copy is WellScoped by itself (the known finding is the only way it fails); and for the two replacements (replace_roundtrip_parsed, Props/C13d). Props/C14e states one theorem per '
